@@ -158,6 +158,9 @@ class ForOfIterator:
 class VM:
     """JavaScript virtual machine."""
 
+    # Nested script -> built-in -> script calls (each costs several host frames)
+    MAX_NATIVE_DEPTH = 100
+
     def __init__(
         self,
         memory_limit: Optional[int] = None,
@@ -2431,6 +2434,12 @@ class VM:
             # Save current stack position AND call stack depth
             stack_len = len(self.stack)
             call_stack_len = len(self.call_stack)
+
+            # Every nesting level of script -> built-in -> script recurses in
+            # the host: stop runaway recursion through callbacks, accessors and
+            # conversions long before the host's own stack overflows.
+            if len(self._native_barriers) >= self.MAX_NATIVE_DEPTH:
+                raise MemoryLimitError("Maximum call depth through built-ins exceeded")
 
             # Script exceptions whose handler is below this depth must unwind
             # through the built-in that called us (see _ThrowSignal)
